@@ -1104,7 +1104,9 @@ class AstEval:
         self.sym_table = self.sym_table_stack.pop()
 
         decorators = [await self.aeval(dec) for dec in arg.decorator_list]
-        sym_table["__init__evalfunc_wrap__"] = None
+        if not any(hasattr(base, "__init__evalfunc_wrap__") for base in bases):
+            # subclasses without their own __init__ use the one they inherit
+            sym_table["__init__evalfunc_wrap__"] = None
         if "__init__" in sym_table:
             sym_table["__init__evalfunc_wrap__"] = sym_table["__init__"]
             del sym_table["__init__"]
